@@ -259,8 +259,7 @@ def expected_strings(ast):
 
 
 def wellformed(ast):
-    """pages the parser can build: sections have a heading, list items sit in a list,
-    a target with a description has an identifier"""
+    """pages the parser can build: sections have a heading, list items sit in a list"""
     def go(j, in_list):
         t = j["t"]
         kids = j.get("c", [])
@@ -268,9 +267,7 @@ def wellformed(ast):
             return False
         if t == "listItem" and not in_list:
             return False
-        if t == "target" and kids and not all(c["t"] in ("targetId", "dirArg") for c in kids):
-            if not any(c["t"] == "targetId" for c in kids):
-                return False
+        # (a target with a description but no identifier IS built by the parser: `.. option:: =` + description)
         if t == "drop":
             return True  # never visited by the builder
         if t == "heading":
